@@ -12,7 +12,31 @@ use std::panic::{catch_unwind, AssertUnwindSafe};
 
 /// Install a panic hook that prints nothing: panics of the subject are observations.
 pub fn quiet_panics() {
-    std::panic::set_hook(Box::new(|_| {}));
+    std::panic::set_hook(Box::new(|info| {
+        if let Ok(mut g) = LAST_PANIC.lock() {
+            *g = format!("{info}");
+        }
+    }));
+}
+
+static LAST_PANIC: std::sync::Mutex<String> = std::sync::Mutex::new(String::new());
+
+/// Message and location of the most recent panic (any thread).
+pub fn last_panic() -> String {
+    LAST_PANIC.lock().map(|g| g.clone()).unwrap_or_default()
+}
+
+/// Run the body of `main`; a panic that escapes every `pv::catch` is a machinery failure
+/// (exit 3), reported with its message and location instead of a silent abort.
+pub fn main_guard(f: impl FnOnce() -> i32) -> ! {
+    quiet_panics();
+    match catch_unwind(AssertUnwindSafe(f)) {
+        Ok(code) => std::process::exit(code),
+        Err(_) => {
+            eprintln!("MACHINERY-FAILURE: uncaught panic in the checker: {}", last_panic());
+            std::process::exit(3)
+        }
+    }
 }
 
 /// Run `f`, turning a panic into `Err(message)`.
